@@ -234,3 +234,21 @@ def canonRle {V : Type} [BEq V] (d : List V) : Rle V :=
   ofPairs (joinPairs (d.zipIdx.map (fun x => (x.2 + 1, x.1))))
 
 end C09
+
+namespace C09
+open Base.Rle
+
+/-! ### `t[intervals]` / `t[locations]`: rows of dense values -/
+
+/-- `extract_intervals`: the slice of the genome-wide array under every interval (global coordinates), reversed for
+intervals on the `-` strand when the extraction is stranded -/
+def extractRows {V : Type} (r : Rle V) (rows : List (Nat × Nat × Bool)) (stranded : Bool) : List (List V) :=
+  rows.map (fun x =>
+    let d := (sliceRle r x.1 x.2.1).toDense
+    if stranded && !x.2.2 then d.reverse else d)
+
+/-- `extract_locations`: the value at every position (`searchsorted` on the events) -/
+def valueAtPos {V : Type} (r : Rle V) (p : Nat) : Option V :=
+  ((runRecs r.events r.values).find? (fun x => decide (x.1 ≤ p) && decide (p < x.2.1))).map (·.2.2)
+
+end C09
